@@ -316,6 +316,11 @@ def symbolic_attractor_test(
     # completed and no unprocessed variables remaining.
     all_done = False
 
+    # Set once no unsaturated variable can make progress. From that point on,
+    # the forward saturation must not be postponed in favour of the backward
+    # one, otherwise the main loop can repeat forever without changing anything.
+    force_forward = False
+
     while not all_done:
         all_done = True
 
@@ -342,7 +347,12 @@ def symbolic_attractor_test(
                     all_variables_done = (
                         len(conflict_vars) == 0 and len(other_vars) == 0
                     )
-                    if no_avoid or avoid_is_larger or all_variables_done:
+                    if (
+                        no_avoid
+                        or avoid_is_larger
+                        or all_variables_done
+                        or force_forward
+                    ):
                         reach_set = updated
                         saturation_done = False
                         if reach_set.symbolic_size() > 100_000 and sd.config["debug"]:
@@ -444,6 +454,9 @@ def symbolic_attractor_test(
                 )
 
             break
+        else:
+            # No new variable can be added.
+            force_forward = True
 
     if sd.config["debug"]:
         print(f"[{node_id}] > Reachability completed with {reach_set}.")
